@@ -58,9 +58,10 @@ def _blocks(tree):
 
 def normalise(tree):
     """-> {rewrite: count}"""
+    n7 = drop_pass(tree)
     ex = _Expr()
     ex.visit(tree)
-    counts = dict(ex.count, N1=0, N4=0)
+    counts = dict(ex.count, N1=0, N4=0, N7=n7)
     for n in ast.walk(tree):
         if isinstance(n, ast.If) and n.orelse and not (len(n.orelse) == 1 and isinstance(n.orelse[0], ast.If)) and isinstance(n.test, ast.UnaryOp) and isinstance(n.test.op, ast.Not):
             n.test = n.test.operand
@@ -80,5 +81,99 @@ def normalise(tree):
                     body[i - 1 : i + 1] = [r]
                     counts["N4"] += 1
                     break
+    ast.fix_missing_locations(tree)
+    return counts
+
+
+# ---------------------------------------------------------------------------------------------------------------------
+# N5 / N6 / N7: orientation relative to the reviewed tree (rules/tables/comparisons.json, frozen by tools/gen_locals_table.py)
+#
+#   N5  b > a            ->  a < b          when the function of the reviewed tree contains `a < b` and not `b > a`
+#   N6  if C: A else: B  ->  if not-C: B else: A   when the reviewed function tests `not-C` (and not `C`) at an if with an else
+#   N7  a redundant `pass` in a block that has other statements is dropped (so `else: pass; if ..` is an `elif` again)
+#
+# Flipping a comparison and swapping the branches of an if/else under the negated test are exact, so - as for the renaming of
+# locals - the table only decides which of two equivalent spellings the rules get to see.
+
+_OPTXT = {ast.Lt: "<", ast.Gt: ">", ast.LtE: "<=", ast.GtE: ">=", ast.Eq: "==", ast.NotEq: "!=", ast.In: "in", ast.NotIn: "not in", ast.Is: "is", ast.IsNot: "is not"}
+
+
+def cmp_key(n):
+    return "%s|%s|%s" % (ast.unparse(n.left), _OPTXT.get(type(n.ops[0]), "?"), ast.unparse(n.comparators[0]))
+
+
+def negated(test):
+    """AST of the exact negation of ``test`` in the spelling the normal form uses"""
+    if isinstance(test, ast.UnaryOp) and isinstance(test.op, ast.Not):
+        return test.operand
+    if isinstance(test, ast.Compare) and len(test.ops) == 1 and type(test.ops[0]) in _NEG:
+        return ast.copy_location(ast.Compare(left=test.left, ops=[_NEG[type(test.ops[0])]()], comparators=test.comparators), test)
+    return ast.copy_location(ast.UnaryOp(op=ast.Not(), operand=test), test)
+
+
+def functions_of(tree):
+    for n in tree.body:
+        if isinstance(n, (ast.FunctionDef, ast.AsyncFunctionDef)):
+            yield n.name, n
+        elif isinstance(n, ast.ClassDef):
+            for m in n.body:
+                if isinstance(m, (ast.FunctionDef, ast.AsyncFunctionDef)):
+                    kind = ""
+                    for d in m.decorator_list:
+                        if isinstance(d, ast.Attribute) and d.attr in ("setter", "deleter"):
+                            kind = "@" + d.attr
+                    yield "%s.%s%s" % (n.name, m.name, kind), m
+
+
+def shapes_of(fn):
+    """-> (comparison keys, if/else test texts) of one function (nested functions included)"""
+    cmps, tests = set(), set()
+    for n in ast.walk(fn):
+        if isinstance(n, ast.Compare) and len(n.ops) == 1 and type(n.ops[0]) in _FLIP:
+            cmps.add(cmp_key(n))
+        if isinstance(n, ast.If) and n.orelse and not (len(n.orelse) == 1 and isinstance(n.orelse[0], ast.If)):
+            tests.add(ast.unparse(n.test))
+    return sorted(cmps), sorted(tests)
+
+
+def drop_pass(tree):
+    c = 0
+    for n in ast.walk(tree):
+        for f in ("body", "orelse", "finalbody"):
+            b = getattr(n, f, None)
+            if isinstance(b, list) and len(b) > 1 and any(isinstance(s, ast.Pass) for s in b):
+                keep = [s for s in b if not isinstance(s, ast.Pass)]
+                if keep:
+                    setattr(n, f, keep)
+                    c += len(b) - len(keep)
+    return c
+
+
+def orient(tree, table):
+    """-> {N5: n, N6: n}; ``table`` = {qualname: {"cmp": [...], "tests": [...]}} for this module"""
+    counts = {"N5": 0, "N6": 0}
+    if not table:
+        return counts
+    for qn, fn in functions_of(tree):
+        ref = table.get(qn)
+        if not ref:
+            continue
+        cmps, tests = set(ref["cmp"]), set(ref["tests"])
+        for n in ast.walk(fn):
+            if isinstance(n, ast.Compare) and len(n.ops) == 1 and type(n.ops[0]) in _FLIP:
+                if cmp_key(n) not in cmps:
+                    l, r = n.left, n.comparators[0]
+                    flipped = "%s|%s|%s" % (ast.unparse(r), _OPTXT[_FLIP[type(n.ops[0])]], ast.unparse(l))
+                    if flipped in cmps:
+                        n.left, n.comparators, n.ops = r, [l], [_FLIP[type(n.ops[0])]()]
+                        counts["N5"] += 1
+        for n in ast.walk(fn):
+            if isinstance(n, ast.If) and n.orelse and not (len(n.orelse) == 1 and isinstance(n.orelse[0], ast.If)):
+                if ast.unparse(n.test) not in tests:
+                    neg = negated(n.test)
+                    if ast.unparse(neg) in tests:
+                        n.test = neg
+                        n.body, n.orelse = n.orelse, n.body
+                        counts["N6"] += 1
     ast.fix_missing_locations(tree)
     return counts
